@@ -971,6 +971,24 @@ struct Call {
     used: i64,
 }
 
+/// The library logs through `tracing`; macro arguments are evaluated only when a subscriber enables the
+/// call site.  The SECOND call of every pair runs under a subscriber that enables everything (TRACE) and
+/// writes to a sink, so that decoding is also exercised the way `RUST_LOG=rs1090=DEBUG` runs it: the
+/// outcome must be the same as without logging, and in particular not a panic.
+fn logged<T>(f: impl FnOnce() -> T) -> T {
+    use std::sync::OnceLock;
+    static DISPATCH: OnceLock<tracing::Dispatch> = OnceLock::new();
+    let d = DISPATCH.get_or_init(|| {
+        tracing::Dispatch::new(
+            tracing_subscriber::fmt()
+                .with_max_level(tracing::Level::TRACE)
+                .with_writer(std::io::sink)
+                .finish(),
+        )
+    });
+    tracing::dispatcher::with_default(d, f)
+}
+
 fn call_try_from(b: &[u8]) -> Call {
     match catch_unwind(AssertUnwindSafe(|| Message::try_from(b))) {
         Ok(Ok(m)) => {
@@ -1150,9 +1168,9 @@ fn c07_record(kind: &str, idx: u64, cls: &str, b: &[u8], m: &Message, tm: &Timed
 fn process(idx: u64, cls: &str, fill: &str, b: &[u8], cfg: &Cfg, sk: &mut Sinks, probe_out: Option<&mut Vec<Value>>) {
     let hexs = hex::encode(b);
     let c1 = call_try_from(b);
-    let c2 = call_try_from(b);
+    let c2 = logged(|| call_try_from(b));
     let f1 = call_from_bytes(b);
-    let f2 = call_from_bytes(b);
+    let f2 = logged(|| call_from_bytes(b));
     let (mut disp, mut dbg) = ("none", "none");
     if let Some(m) = &c1.msg {
         let r = render(m, c1.text != DEBUG_PANICKED);
